@@ -246,6 +246,20 @@ func readNLower(fn *ssa.Function, v ssa.Value, at ssa.Instruction) (int64, bool)
 			}
 		}
 		call, idx := callOf(l)
+		if call != nil && idx == 0 && callee(call) != "(desync.reader).ReadN" {
+			// a function of the library that hands on what it read with ReadN ("readBytes(hdr,
+			// hdrLen)" returns ReadN(hdr.Size - hdrLen)): the amount, in terms of this call's arguments
+			if e, okW := readWrapperAmount(call); okW {
+				lb, okL := provenLowerLin(call, e, known)
+				if !okL {
+					return 0, false
+				}
+				if !found || lb < best {
+					best, found = lb, true
+				}
+				continue
+			}
+		}
 		if call == nil || idx != 0 || callee(call) != "(desync.reader).ReadN" {
 			return 0, false
 		}
@@ -262,6 +276,72 @@ func readNLower(fn *ssa.Function, v ssa.Value, at ssa.Instruction) (int64, bool)
 		}
 	}
 	return best, found
+}
+
+// readWrapperAmount: call is a call of a library function every successful return of which
+// yields the result of reader.ReadN(A); the linear form of A with the function's parameters
+// replaced by the arguments of this call.
+func readWrapperAmount(call *ssa.Call) (linform, bool) {
+	g := call.Call.StaticCallee()
+	if g == nil || len(g.Blocks) == 0 || g.Signature.Results().Len() != 2 {
+		return linform{}, false
+	}
+	var amount *linform
+	for _, r := range returnsOf(g) {
+		if len(r.Results) != 2 {
+			return linform{}, false
+		}
+		if ev := unspill(r, r.Results[1]); !isNilConst(ev) {
+			// "return r.ReadN(n)": data and error of the same read, passed on together
+			rc0, i0 := callOf(unspill(r, r.Results[0]))
+			rc1, i1 := callOf(ev)
+			if !(rc0 != nil && rc0 == rc1 && i0 == 0 && i1 == 1) {
+				continue // an error return
+			}
+		}
+		for _, l := range leaves(unspill(r, r.Results[0])) {
+			rc, idx := callOf(l)
+			if rc == nil || idx != 0 || callee(rc) != "(desync.reader).ReadN" || rc.Parent() != g {
+				return linform{}, false
+			}
+			e := linearB(rc.Call.Args[len(rc.Call.Args)-1], 0)
+			if !e.ok {
+				return linform{}, false
+			}
+			if amount != nil && !amount.equal(e) {
+				return linform{}, false
+			}
+			amount = &e
+		}
+	}
+	if amount == nil {
+		return linform{}, false
+	}
+	// parameters -> arguments
+	out := linform{atoms: map[string]int{}, k: amount.k, ok: true}
+	for a, n := range amount.atoms {
+		if n == 0 {
+			continue
+		}
+		if strings.HasPrefix(a, "param#") {
+			k := 0
+			fmt.Sscanf(a, "param#%d", &k)
+			if k >= len(call.Call.Args) {
+				return linform{}, false
+			}
+			sub := linearB(call.Call.Args[k], 0)
+			if !sub.ok {
+				return linform{}, false
+			}
+			for sa, sn := range sub.atoms {
+				out.atoms[sa] += n * sn
+			}
+			out.k += int64(n) * sub.k
+			continue
+		}
+		out.atoms[a] += n
+	}
+	return out, true
 }
 
 func c19SliceGuards(c *Ctx) {
